@@ -34,13 +34,21 @@ def state_target(values, ending):
 
 class StatefulMixin:
     def run(self, values, ending):
-        seen = self.user_state                  # what this incarnation saw first
+        seen = repr(self.user_state)            # what this incarnation saw first (taken now: the object may be mutated in place below)
         for v in values:
-            nv = mkval(v)
+            if v == 'inplace':
+                # mutate the current state object in place and assign the very same object back
+                nv = self.user_state
+                if isinstance(nv, list):
+                    nv.append(9)
+                elif isinstance(nv, dict):
+                    nv['m'] = 9
+            else:
+                nv = mkval(v)
             self.user_state = nv                # US_ASSIGN
         if ending == 'raise':
             raise ValueError('end')
-        return ('seen', repr(seen))
+        return ('seen', seen)
 
 
 class SThread(StatefulMixin, ThreadWorker):
